@@ -11,8 +11,10 @@ Compares, on the same byte strings,
   Py     bzformat.strict_decode       (independent Python oracle)
 
 Inputs: the small cases of the decoder campaign (tools/camp_decode.py:
-gen_valid / gen_malformed; streams <= 3 kB, plaintext <= 20 kB — the Lean
-models of decode() and of the bit buffer are list based), plus, for two small
+gen_valid / gen_malformed; files <= 3 kB whose blocks — as far as a Python
+pre-scan without inverse BWT gets through them — hold <= 20000 bytes: the Lean
+model of decode() is list based and quadratic; the files skipped for that
+reason are listed in the summary as `skipped_big_blocks`), plus, for two small
 files, EVERY truncation point and a set of trailing-data variants (0..5 junk
 bytes, "B", "BZ", "BZh", "BZh0", "BZh9", "BZh9"+rest, a second stream cut at
 every point of its last 16 bytes, zero bytes that would complete a cut
